@@ -74,6 +74,16 @@ CLAIMS = {
             "traces of the real wrapper for those and for random long changelogs. Two genuine defects found this way were repaired (fix: commits).",
             "Valid input changelogs. Trusted: scripted source, TLC.", "TLA+ spec + TLC bounded-exhaustive script export replayed on the real wrapper + TLC trace validation",
             "DESIGN.md 6/C22"),
+    "C19": ("model_checking",
+            "StreamJoin.tla models the join goroutine of StreamJoin and OuterJoin action by action (select arms, first close, one-stream phase, "
+            "processRecordsUpTo, per-key trees with event-time lists, buffers, min-watermark, oneStreamRemains). TLC explores every pair of valid "
+            "scripts up to 2 messages per side x 4 join kinds x every interleaving and close order, with deadlock checking and termination as a "
+            "liveness property, against JFail/JRetroFail: at every forwarded watermark W the consolidated output equals the join of the received "
+            "zero-time records and of all records of the complete inputs at or below W; at end of stream the join of the complete inputs. The "
+            "exported pairs are run on the real nodes under every schedule (gated by the JoinRecv hook), random pairs under random gated schedules "
+            "and under free Go scheduling; TLC validates every recorded run. The defect found (lost matches when one input ends first) was repaired.",
+            "Non-late, valid inputs; non-NULL keys. Hook JoinRecv (build tag verif) reports consumption in the join goroutine. Trusted: gate "
+            "scheduler, TLC.", "TLA+ spec + TLC interleaving model + schedule-enforced replay on real joins + TLC trace validation", "DESIGN.md 6/C19"),
 }
 
 NA_DEFAULT = "check not built yet (work in progress; will be claimed once its TLA+ spec and conformance harness are committed)"
